@@ -54,7 +54,7 @@ func runC12(opt *Options) int {
 	}
 	// a method-level goverter:context line holds for that method only
 	for _, c := range layerb.FamilySignature(false) {
-		if strings.Contains(c.ID, "signature/context_line_") || strings.Contains(c.ID, "signature/bare_") || strings.Contains(c.ID, "signature/context_names_") {
+		if strings.Contains(c.ID, "signature/context_line_") || strings.Contains(c.ID, "signature/bare_") || strings.Contains(c.ID, "signature/context_names_") || strings.Contains(c.ID, "signature/struct_") {
 			sib = append(sib, c)
 		}
 	}
